@@ -322,6 +322,58 @@ def two_closers():
     return out
 
 
+def closer_parked_after_its_section():
+    """the closing thread is held right after it released the instance lock; the reader (blocked in poll) wakes, finds the
+    instance closed and releases the descriptors; whatever the closer still does afterwards must not touch them"""
+    base = tempfile.mkdtemp(prefix="c12h")
+    out = []
+    try:
+        ino = ic.Inotify(base.encode())
+        fds = (ino._inotify_fd, ino._kill_r, ino._kill_w)
+        m = FdMachine(fds)
+        m.install(ino)
+        try:
+            rd = threading.Thread(target=ino.read_events, name="reader3")
+            rd.start()
+            time.sleep(0.1)                      # reader inside poll(), _is_reading set
+            gl = GateLock(ino._lock, "closerB", ("release", 1))
+            ino._lock = gl
+            err = []
+
+            def closer():
+                try:
+                    ino.close()
+                except OSError as e:
+                    err.append(repr(e))
+            c = threading.Thread(target=closer, name="closerB")
+            c.start()
+            if not gl.reached.wait(2):
+                out.append("closer never left its critical section")
+            rd.join(2)                            # IN_IGNORED of the removed root watch (or the wake-up byte) ends the read
+            gl.go.set()
+            c.join(3)
+            if rd.is_alive():
+                os.write(fds[2], b"!") if m.state[fds[2]] == "open" else None
+                rd.join(1)
+                out.append("reader still blocked after close()")
+            out.extend(f"closer held after releasing the lock: {v}" for v in m.viol)
+            out.extend(f"close() raised {e}" for e in err)
+            left = [fd for fd, st in m.state.items() if st == "open"]
+            if left:
+                out.append(f"descriptors {left} never released")
+        finally:
+            m.uninstall()
+            for fd, st in m.state.items():
+                if st == "open":
+                    try:
+                        os.close(fd)
+                    except OSError:
+                        pass
+    finally:
+        shutil.rmtree(base, ignore_errors=True)
+    return out
+
+
 def restart_cycles():
     """stop(); start(); stop() on an emitter and observer.stop(); schedule(); start(); stop(): what a start() after a stop() creates is released by the next stop()"""
     from watchdog.observers.inotify import InotifyEmitter
@@ -358,7 +410,7 @@ def restart_cycles():
 
 
 PARKS = [("acquire", 1), ("release", 1), ("acquire", 2), ("release", 2), ("acquire", 3)]
-SCEN = {"cycles": cycles, "failed-schedules": failed_schedules, "close-before-first-read": close_before_first_read, "root-deleted-then-close": root_deleted_then_close, "two-closers": two_closers, "restart-cycles": restart_cycles}
+SCEN = {"cycles": cycles, "failed-schedules": failed_schedules, "close-before-first-read": close_before_first_read, "root-deleted-then-close": root_deleted_then_close, "two-closers": two_closers, "restart-cycles": restart_cycles, "closer-parked-after-its-section": closer_parked_after_its_section}
 for p in PARKS:
     SCEN[f"close-vs-reader@{p[0]}{p[1]}"] = (lambda p=p: close_vs_reader(p))
 
